@@ -841,8 +841,30 @@ impl<'a> Run<'a> {
         let loc = self.model.locator(d);
         let (blob_bytes, penalty) = self.blob_of(d, blob);
         let app = Appointment::new(loc, blob_bytes.clone(), tsd);
+        // The message a user signs, serialised by the harness itself (locator | encrypted blob | to_self_delay as 4
+        // big-endian bytes), not by the code under test: the tower and its client share `Appointment::to_vec`, so a field
+        // dropped from it would otherwise go unnoticed on both sides.
+        // Users sign with the serialisation the code base ships (`Appointment::to_vec`, shared by tower and client) ...
         let msg = app.to_vec();
-        let alt = format!("get appointment {loc}").into_bytes();
+        let alt = match sig {
+            // ... so a signature the same user made for ALMOST this appointment (another to_self_delay / one more blob
+            // byte), produced the same way, must not authenticate this one
+            Sig::OtherMessage(n) if n % 3 == 1 => Appointment::new(loc, blob_bytes.clone(), tsd.wrapping_add(1)).to_vec(),
+            Sig::OtherMessage(n) if n % 3 == 2 => {
+                let mut b = blob_bytes.clone();
+                b.push(0x42);
+                Appointment::new(loc, b, tsd).to_vec()
+            }
+            _ => format!("get appointment {loc}").into_bytes(),
+        };
+        // ... and that serialisation is the documented one (locator | blob | to_self_delay as 4 big-endian bytes)
+        if msg != signed_appointment_message(&loc.to_vec(), &blob_bytes, tsd) {
+            self.report(vec![viol(
+                "C06",
+                "signed_message_not_the_documented_one",
+                format!("op #{}: the message signed for an appointment is not locator | encrypted_blob | to_self_delay", self.cur_op),
+            )]);
+        }
         let (sig_str, eff) = self.make_sig(u, &msg, &alt, sig);
         let before = self.db(ctx);
         let ev0 = self.log.len();
@@ -1286,6 +1308,11 @@ impl<'a> Run<'a> {
                 st.faults.flavour = (st.rpc_count % 5) as u8;
             }
             Op::NodeUp => self.node.lock().faults.down = false,
+            Op::NodeUpThenDownAfter { rpcs } => {
+                let mut st = self.node.lock();
+                st.faults.down = false;
+                st.faults.down_at_rpc = Some(st.rpc_count + *rpcs as u64);
+            }
             Op::FetchFault { nth, persistent } => {
                 let mut st = self.node.lock();
                 st.faults.fetch_calls = 0;
@@ -1397,6 +1424,15 @@ impl<'a> Run<'a> {
         self.observe(ctx, &tu, &tr, full);
         None
     }
+}
+
+/// The byte string a user signs to submit an appointment, as documented: locator | encrypted_blob | to_self_delay (u32, big endian).
+pub fn signed_appointment_message(locator: &[u8], blob: &[u8], to_self_delay: u32) -> Vec<u8> {
+    let mut m = Vec::with_capacity(locator.len() + blob.len() + 4);
+    m.extend_from_slice(locator);
+    m.extend_from_slice(blob);
+    m.extend_from_slice(&to_self_delay.to_be_bytes());
+    m
 }
 
 /// What the tower holds in memory, as far as the (private) API shows it.
